@@ -93,7 +93,7 @@ impl Ctx {
         self.out.write_all(r.as_bytes()).unwrap();
         self.out.write_all(b"\n").unwrap();
         self.n_ops += 1;
-        if r == "PANIC" && !(line.starts_with("applyb ") || line.starts_with("reduceb ")) {
+        if r == "PANIC" && !(line.starts_with("applyb ") || line.starts_with("reduceb ") || line.starts_with("signed binary ")) {
             self.fail("implementation panicked", &[line.to_string()]);
         }
         // samples spread over the whole run: operation numbers 1, 2, 4, 8, … (at most 26 of them)
